@@ -7,3 +7,7 @@ ID_MAX = 2 ** 53
 
 def id_ok(v):
     return 0 <= v <= ID_MAX
+
+from autobahn.wamp.message import (Hello, Welcome, Abort, Challenge, Authenticate, Goodbye, Error, Publish, Published,  # noqa
+                                   Subscribe, Subscribed, Unsubscribe, Unsubscribed, Event, EventReceived, Call, Cancel,
+                                   Result, Register, Registered, Unregister, Unregistered, Invocation, Interrupt, Yield)
